@@ -1,5 +1,64 @@
-(* Properties_C08.v — placeholder until SessionProofs lands: constants only *)
-From Coq Require Import ZArith.
-From Srtp Require Import Constants.
-Theorem c08_placeholder : seq_num_median_c = 32768%Z.
-Proof. reflexivity. Qed.
+(* Properties_C08.v — a sender never encrypts two packets with the same key and IV (C08).
+   Statements only; proofs in IvProofs.v (on top of the replay-window invariant of RdbxProofs.v
+   and RdbProofs.v).  tx_step is srtp_protect's index handling (estimate, replay check, add)
+   without allow_repeat_tx and without an imposed ROC; rtcp_tx_run is srtp_rdb_increment. *)
+From Coq Require Import NArith ZArith List Bool.
+From Srtp Require Import Util Constants Rdb Rdbx Seen RdbProofs RdbxProofs Icm World Rtp Rtcp IvProofs.
+Import ListNotations.
+Local Open Scope Z_scope.
+
+(* any sequence of sequence numbers presented to srtp_protect (repeated, reordered, wrapping):
+   the indices under which packets are actually encrypted are pairwise distinct *)
+Theorem tx_indices_distinct : forall l r seen,
+  RdbxProofs.Inv r seen -> Forall (fun s => 0 <= s < 2 ^ 16) l -> tx_bounded r l ->
+  let '(r', os) := tx_run r l in
+  exists seen', RdbxProofs.Inv r' seen' /\ (forall i, seen i -> seen' i) /\
+    (forall n i, nth_error os n = Some (Some i) -> ~ seen i /\ seen' i /\
+        forall m, (m < n)%nat -> nth_error os m <> Some (Some i)).
+Proof. exact tx_run_distinct. Qed.
+Print Assumptions tx_indices_distinct.
+
+(* SRTCP: the k-th call uses index start+k+1 while that is at most 2^31-1, and fails with
+   key_expired (index stuck at 2^31-1) for ever after *)
+Theorem rtcp_tx_strictly_increasing : forall n r,
+  0 <= wstart r < 2 ^ 31 ->
+  forall k s i, nth_error (snd (rtcp_tx_run r n)) k = Some (s, i) ->
+    (wstart r + Z.of_nat k + 1 <= 2 ^ 31 - 1 -> s = st_ok /\ i = wstart r + Z.of_nat k + 1) /\
+    (wstart r + Z.of_nat k + 1 > 2 ^ 31 - 1 -> s = st_key_expired /\ i = 2 ^ 31 - 1).
+Proof. exact rtcp_tx_spec. Qed.
+Print Assumptions rtcp_tx_strictly_increasing.
+
+(* equal IVs under one key imply equal (SSRC, index): distinct streams sharing a wildcard key and
+   distinct indices of one stream never collide *)
+Theorem srtp_iv_injective : forall alg s1 e1 s2 e2,
+  is_icm_alg alg = true ->
+  0 <= s1 < 2 ^ 32 -> 0 <= s2 < 2 ^ 32 -> 0 <= e1 < 2 ^ 48 -> 0 <= e2 < 2 ^ 48 ->
+  rtp_iv alg s1 e1 = rtp_iv alg s2 e2 -> s1 = s2 /\ e1 = e2.
+Proof. exact rtp_iv_inj. Qed.
+Print Assumptions srtp_iv_injective.
+
+Theorem srtcp_iv_injective : forall alg s1 q1 s2 q2,
+  is_icm_alg alg = true ->
+  0 <= s1 < 2 ^ 32 -> 0 <= s2 < 2 ^ 32 -> 0 <= q1 < 2 ^ 31 -> 0 <= q2 < 2 ^ 31 ->
+  rtcp_iv alg s1 q1 = rtcp_iv alg s2 q2 -> s1 = s2 /\ q1 = q2.
+Proof. exact rtcp_iv_inj. Qed.
+Print Assumptions srtcp_iv_injective.
+
+(* the cipher's starting counter block = per-key offset xor IV: injective in the IV *)
+Theorem counter_block_injective : forall off iv1 iv2,
+  length iv1 = length off -> length iv2 = length off ->
+  xor_bytes off iv1 = xor_bytes off iv2 -> iv1 = iv2.
+Proof. exact xor_offset_inj. Qed.
+Print Assumptions counter_block_injective.
+
+(* outside the premise (index < 2^48): with ROC 2^32-1 a wrapping sequence number is estimated
+   with ROC 0 -- reaching it needs 2^33 srtp_protect calls or srtp_stream_set_roc *)
+Example roc_wrap_outside_premise : index_guess (4294967295 * 65536 + 65535) 0 = (0, 1).
+Proof. vm_compute. reflexivity. Qed.
+
+Example tx_example :
+  match rdbx_init 128 with
+  | Some r0 => snd (tx_run r0 [10; 11; 10; 9; 65535; 3; 3])
+  | None => []
+  end = [Some 10; Some 11; None; Some 9; Some 65535; Some 65539; None].
+Proof. vm_compute. reflexivity. Qed.
